@@ -1113,6 +1113,20 @@ impl<'a> Gen<'a> {
                 f.pad_kib = 1100;
             }
         }
+        // a Markdown file written as the body of one list item (nested html_block nodes)
+        for f in &mut self.world.files {
+            let w = f.written_as();
+            let mut one_comment = false;
+            crate::world::for_each_block(&f.blocks, &mut |b| one_comment |= b.one_comment);
+            if matches!(f.diff, FileDiff::None)
+                && (w.ends_with(".md") || w.ends_with(".markdown"))
+                && !f.bom
+                && !one_comment
+                && self.rng.chance(1, 3)
+            {
+                f.md_nest = 1;
+            }
+        }
         // a type change: the added file replaces a symbolic link of the same name
         for f in &mut self.world.files {
             if matches!(f.diff, FileDiff::Added) && !f.path.contains(' ') && self.rng.chance(1, 12) {
